@@ -278,11 +278,18 @@ def run_case(ctx, prog, start, steps, tmax, params, case, analytic=None,
         got = res[:, :len(s0)]
         scale = max(1e-9, float(np.max(np.abs(want))))
         err = float(np.max(np.abs(got - want))) / scale
-        ctx.seen_max("max_analytic_rel_error_permille", int(err * 1000))
-        if not err <= 5e-2:
+        # RK45 (rtol 1e-3) accumulates a phase error of ~3e-4 per radian of
+        # rotation (calibrated on 1500 runs of the unchanged tree: worst
+        # 0.045 at ~150 rad); the tolerance keeps a factor >= 4 above that
+        rot, growth = case.get("rot", 0.0), case.get("growth", 0.0)
+        tol = 0.01 + 0.0015 * rot + 0.003 * max(0.0, growth)
+        ctx.seen_max("max_analytic_error_over_tolerance_percent",
+                     int(100 * err / tol))
+        if not err <= tol:
             ctx.violation("state-differs-from-analytic-solution",
-                          f"max relative error {err:.3g} (steps={steps}, "
-                          f"T={res[-1, -1]:.4g})", case)
+                          f"max relative error {err:.3g} > {tol:.3g} "
+                          f"(steps={steps}, T={res[-1, -1]:.4g}, "
+                          f"{rot:.1f} rad of rotation)", case)
     if CNT.cycles >= 2 or kind == "failure" or analytic is not None:
         ctx.nontrivial(case)
 
@@ -342,10 +349,14 @@ def linear_analytic(ctx, rng):
     steps = int(rng.choice([10, 11, 50, 500, 5000]))
     tmax = float(rng.choice([0.5, 2.0, 10.0, 50.0]))
     M = np.array(A) + np.outer(B, K)
-    if max(np.linalg.eigvals(M).real) * tmax > 15:
+    ev = np.linalg.eigvals(M)
+    if max(ev.real) * tmax > 15 or max(abs(ev.imag)) * tmax > 80:
+        ctx.count("analytic_case_outside_well_behaved_regime_skipped")
         return
     case = {"kind": "linear", "A": A, "K": [float(v) for v in K],
-            "start": [float(v) for v in s0], "steps": steps, "tmax": tmax}
+            "start": [float(v) for v in s0], "steps": steps, "tmax": tmax,
+            "rot": float(max(abs(ev.imag)) * tmax),
+            "growth": float(max(ev.real) * tmax)}
     run_case(ctx, (lin_system(A, B), ctrl_linear, 1), s0, steps, tmax, K,
              case, analytic=expm_solution(M, s0))
 
